@@ -272,6 +272,10 @@ pub struct EvGen {
     pub price_q: u16,
     /// a reconnect notice instead of a trade
     pub reconnecting: bool,
+    /// in-memory flavours only: the item's exchange time lags this many seconds behind its place in
+    /// the dataset (merged feeds, a venue whose clock runs behind): timestamps not monotonic
+    #[serde(default)]
+    pub lag_s: u16,
 }
 
 #[derive(Debug, Clone, Serialize, Deserialize)]
@@ -303,6 +307,10 @@ struct Setup {
 }
 
 fn setup(case: &BtCase) -> Setup {
+    setup_with(case, false)
+}
+
+fn setup_with(case: &BtCase, allow_lag: bool) -> Setup {
     let n_inst = case.n_instruments.clamp(1, 3) as usize;
     let defs: Vec<InstrumentDef> = (0..n_inst)
         .map(|i| InstrumentDef { exchange: if case.two_exchanges && i == n_inst - 1 && n_inst > 1 { 2 } else { 1 }, base: i as u8, quote: 3, kind: KindDef::Spot, unit: UnitDef::NoSpec })
@@ -322,8 +330,8 @@ fn setup(case: &BtCase) -> Setup {
             dataset.push(MarketStreamEvent::Reconnecting(ex_id));
             continue;
         }
-        // unique, increasing exchange times
-        let t = T0_MS + 1_000 * (k as i64 + 1);
+        // unique, increasing exchange times (unless the in-memory flavour asks for a lagging item)
+        let t = T0_MS + 1_000 * (k as i64 + 1) - if allow_lag { (1_000 * e.lag_s as i64).min(1_000 * k as i64) } else { 0 };
         let price = e.price_q.max(1) as f64 / 4.0;
         dataset.push(MarketStreamEvent::Item(MarketEvent { time_exchange: ts(t), time_received: ts(t), exchange: ex_id, instrument: InstrumentIndex(inst), kind: DataKind::Trade(PublicTrade { id: format!("{k}"), price, amount: 1.0, side: Side::Buy }) }));
         trades.push((inst, t));
@@ -457,10 +465,15 @@ fn judge_rest(tag: &str, s: &Setup, k: usize, exp: &Expected, fin: &Final, summa
 }
 
 fn case_strategy(max_events: usize, max_bt: usize) -> BoxedStrategy<BtCase> {
+    case_strategy_lag(max_events, max_bt, false)
+}
+
+fn case_strategy_lag(max_events: usize, max_bt: usize, lag: bool) -> BoxedStrategy<BtCase> {
+    let lag_s = if lag { prop_oneof![8 => Just(0u16), 1 => 1u16..5, 1 => 5u16..900].boxed() } else { Just(0u16).boxed() };
     (
         any::<bool>(),
         1u8..=3,
-        prop::collection::vec((0u8..3, 1u16..2000, prop::bool::weighted(0.05)), 1..max_events),
+        prop::collection::vec((0u8..3, 1u16..2000, prop::bool::weighted(0.05), lag_s), 1..max_events),
         prop::collection::vec(prop::collection::vec((any::<u16>(), 0u8..3, any::<bool>(), 1u8..30), 1..6), 1..=max_bt),
         0u8..50,
         0u8..3,
@@ -469,7 +482,7 @@ fn case_strategy(max_events: usize, max_bt: usize) -> BoxedStrategy<BtCase> {
         .prop_map(|(two_exchanges, n_instruments, ev, tables, latency_ms, fee_sel, threads_sel)| BtCase {
             two_exchanges,
             n_instruments,
-            events: ev.into_iter().map(|(inst, price_q, reconnecting)| EvGen { inst, price_q, reconnecting }).collect(),
+            events: ev.into_iter().map(|(inst, price_q, reconnecting, lag_s)| EvGen { inst, price_q, reconnecting, lag_s }).collect(),
             tables: tables.into_iter().map(|t| t.into_iter().map(|(ordinal, inst, buy, qty)| Entry { ordinal, inst, buy, qty }).collect()).collect(),
             latency_ms,
             fee_sel,
@@ -649,7 +662,7 @@ impl Check for BacktestsInMemory {
 
     fn strategy(tier: Tier) -> BoxedStrategy<BtCase> {
         let big = if tier == Tier::Quick { 700 } else { 2500 };
-        prop_oneof![2 => case_strategy(40, 8), 2 => case_strategy(big, 5)].boxed()
+        prop_oneof![2 => case_strategy_lag(40, 8, true), 2 => case_strategy_lag(big, 5, true)].boxed()
     }
 
     fn eval(case: &BtCase) -> CaseReport {
@@ -657,7 +670,7 @@ impl Check for BacktestsInMemory {
         macro_rules! bad {
             ($sig:expr, $($fmt:tt)+) => {{ rep.fail($sig, format!($($fmt)+)); return rep; }};
         }
-        let s = setup(case);
+        let s = setup_with(case, true);
         if s.trades.is_empty() || !matches!(s.dataset[0], MarketStreamEvent::Item(_)) {
             return rep;
         }
@@ -700,6 +713,8 @@ impl Check for BacktestsInMemory {
         rep.class_if(tables.len() >= 2, "two_or_more_concurrent");
         rep.class_if(s.dataset.len() > 128, "dataset_over_128");
         rep.class_if(s.dataset.len() > 512, "dataset_over_512");
+        rep.class_if(s.trades.windows(2).any(|w| w[1].1 < w[0].1), "timestamps_not_monotonic");
+        rep.class_if(s.trades.iter().scan(0i64, |mx, (_, t)| { let behind = *mx - *t; *mx = (*mx).max(*t); Some(behind) }).any(|b| b > 5_000), "item_more_than_5s_behind");
         rep.class_if(s.reconnects > 0, "reconnect_notice_in_dataset");
         rep.nontrivial = tables.len() >= 2 && s.dataset.len() >= 20;
         rep
@@ -726,8 +741,8 @@ impl Check for InMemoryData {
     const NAME: &'static str = "in_memory_data";
 
     fn strategy(_tier: Tier) -> BoxedStrategy<MemCase> {
-        (prop::collection::vec((0u8..3, 1u16..2000, prop::bool::weighted(0.2)), 1..120), 1u8..=4, prop::collection::vec(any::<u8>(), 0..200))
-            .prop_map(|(ev, n_streams, schedule)| MemCase { events: ev.into_iter().map(|(inst, price_q, reconnecting)| EvGen { inst, price_q, reconnecting }).collect(), n_streams, schedule })
+        (prop::collection::vec((0u8..3, 1u16..2000, prop::bool::weighted(0.2), prop_oneof![6 => Just(0u16), 1 => 1u16..900]), 1..120), 1u8..=4, prop::collection::vec(any::<u8>(), 0..200))
+            .prop_map(|(ev, n_streams, schedule)| MemCase { events: ev.into_iter().map(|(inst, price_q, reconnecting, lag_s)| EvGen { inst, price_q, reconnecting, lag_s }).collect(), n_streams, schedule })
             .boxed()
     }
 
@@ -739,7 +754,7 @@ impl Check for InMemoryData {
             if e.reconnecting {
                 events.push(MarketStreamEvent::Reconnecting(ExchangeId::BinanceSpot));
             } else {
-                let t = ts(T0_MS + 1_000 * (k as i64 + 1));
+                let t = ts(T0_MS + 1_000 * (k as i64 + 1) - (1_000 * e.lag_s as i64).min(1_000 * k as i64));
                 events.push(MarketStreamEvent::Item(MarketEvent { time_exchange: t, time_received: t, exchange: ExchangeId::BinanceSpot, instrument: InstrumentIndex(e.inst as usize), kind: DataKind::Trade(PublicTrade { id: format!("{k}"), price: e.price_q as f64, amount: 1.0, side: Side::Buy }) }));
             }
         }
@@ -789,13 +804,14 @@ impl Check for InMemoryData {
         }
         rep.class_if(matches!(events[0], MarketStreamEvent::Reconnecting(_)), "starts_with_reconnect_notice");
         rep.class_if(n_streams >= 2 && switches >= 3, "interleaved_consumers");
+        rep.class_if(case.events.iter().enumerate().any(|(k, e)| k > 0 && !e.reconnecting && e.lag_s > 0), "timestamps_not_monotonic");
         rep.nontrivial = events.len() >= 5 && n_streams >= 2 && switches >= 3;
         rep
     }
 }
 
 pub fn run(ctx: &mut Ctx) {
-    ctx.rule = "backtests_paused: datasets of 1..80|300 market items (public trades over 1..3 instruments on 1..2 mock exchanges, unique increasing times, 5% reconnect notices) served with a virtual gap of 2 x latency + 5 ms; 1..12|24 concurrent backtests, each strategy a table (market-item ordinal -> market order) firing once per ordinal and never on the last two ordinals; mock latency 0..49 ms, fee in {0, 0.1%, 1%}; tokio paused current-thread runtime; every backtest is judged against its own table (market items seen = dataset in order, fills, final balances/positions, summary) and the first six are re-run alone and compared. backtests_threads: same through multi-thread runtimes with 1/2/4/8 workers, the dataset's last item gated on all expected fills (20 s watchdog => skipped, 60 s => inconclusive). non-trivial = >= 4 concurrent backtests with >= 4 different tables, every backtest has >= 1 fill, dataset >= 20 items; distinct by hash of the case. in_memory_data: MarketDataInMemory stream()/time_first_event on generated event lists; 1..4 streams taken from the one dataset (and a clone) polled in a generated interleaving must each yield the whole dataset (non-trivial = >= 2 streams, >= 3 switches). backtests_in_memory: 1..8 concurrent backtests over the crate's MarketDataInMemory (datasets 1..40 or 1..700|2500 items, zero gap, paused current-thread runtime), judged on consumption only: each engine saw every market item and reconnect notice once, in order; then one backtest alone over the same shared data.".into();
+    ctx.rule = "backtests_paused: datasets of 1..80|300 market items (public trades over 1..3 instruments on 1..2 mock exchanges, unique increasing times, 5% reconnect notices) served with a virtual gap of 2 x latency + 5 ms; 1..12|24 concurrent backtests, each strategy a table (market-item ordinal -> market order) firing once per ordinal and never on the last two ordinals; mock latency 0..49 ms, fee in {0, 0.1%, 1%}; tokio paused current-thread runtime; every backtest is judged against its own table (market items seen = dataset in order, fills, final balances/positions, summary) and the first six are re-run alone and compared. backtests_threads: same through multi-thread runtimes with 1/2/4/8 workers, the dataset's last item gated on all expected fills (20 s watchdog => skipped, 60 s => inconclusive). non-trivial = >= 4 concurrent backtests with >= 4 different tables, every backtest has >= 1 fill, dataset >= 20 items; distinct by hash of the case. in_memory_data: MarketDataInMemory stream()/time_first_event on generated event lists; 1..4 streams taken from the one dataset (and a clone) polled in a generated interleaving must each yield the whole dataset (non-trivial = >= 2 streams, >= 3 switches). backtests_in_memory: 1..8 concurrent backtests over the crate's MarketDataInMemory (datasets 1..40 or 1..700|2500 items, zero gap, paused current-thread runtime), one item in five lags 1..900 s behind its place (timestamps not monotonic), judged on consumption only: each engine saw every market item and reconnect notice once, in order; then one backtest alone over the same shared data.".into();
     ctx.assumptions = vec![
         "strategies decide from the number of market items seen only, once per ordinal (decisions independent of the timing of execution responses), and place nothing on the last two ordinals".into(),
         "timestamps are set aside (the historical clock mixes in wall-clock time)".into(),
